@@ -21,10 +21,20 @@ MAX_PER_SEED, MAX_BYTES, MAX_SECONDS_EACH, MAX_SECONDS_TOTAL = 2, 150000, 6.0, 4
 
 
 def main():
-    props = sys.argv[1:] or ["C%02d" % i for i in range(1, 21)]
+    # --add r9,r10 : only ADD entries from the seeds of those rounds to the existing corpus (nothing is removed,
+    #                hand-made entries stay); without it the corpus of a property is rebuilt from all seeds
+    add = None
+    args = sys.argv[1:]
+    if "--add" in args:
+        i = args.index("--add")
+        add = args[i + 1].split(",")
+        del args[i:i + 2]
+    props = args or ["C%02d" % i for i in range(1, 21)]
     for prop in props:
         cands = []
         for d in sorted(glob.glob(os.path.join(VERIF, "seeded", prop + "-*"))):
+            if add is not None and not any(("-%s" % a) in os.path.basename(d)[3:] and os.path.basename(d)[4:-1] == a for a in add):
+                continue
             fs = []
             for f in glob.glob(os.path.join(d, prop + "_*.json")):
                 try:
@@ -46,15 +56,16 @@ def main():
             if len(w) >= 3 and w[0] in ("OK", "BAD") and w[2].endswith("s"):
                 res[w[1]] = (w[0], float(w[2][:-1]), " ".join(w[3:]))
         out = os.path.join(VERIF, "corpus", prop)
-        shutil.rmtree(out, ignore_errors=True)
-        os.makedirs(out)
+        if add is None:
+            shutil.rmtree(out, ignore_errors=True)
+        os.makedirs(out, exist_ok=True)
         total, kept, bad = 0.0, 0, []
         for _, f, key in sorted(cands, key=lambda c: res.get(c[1], ("BAD", 99, ""))[1]):
             st, secs, why = res.get(f, ("BAD", 99.0, "no result"))
             if st != "OK":
                 bad.append("%s (%s)" % (os.path.relpath(f, VERIF), why))
                 continue
-            if secs > MAX_SECONDS_EACH or total + secs > MAX_SECONDS_TOTAL:
+            if secs > MAX_SECONDS_EACH or total + secs > (MAX_SECONDS_TOTAL if add is None else 15.0):
                 continue
             total += secs
             kept += 1
